@@ -268,6 +268,12 @@ pub fn run(prop: &str, tier: &str, replay: Option<&str>) -> i32 {
                 }
             }
         }
+        if thorough {
+            // not an advertised combination (the statement lists ring OR aws-lc-rs OR none), but cargo features are additive and
+            // the crate's cfg expressions provide for it: it must at least build
+            configs.push(("rcgen [ring,aws_lc_rs,pem,x509-parser,zeroize]".into(), vec!["ring".into(), "aws_lc_rs".into(), "pem".into(), "x509-parser".into(), "zeroize".into()], "rcgen"));
+            configs.push(("rcgen [ring,aws_lc_rs]".into(), vec!["ring".into(), "aws_lc_rs".into()], "rcgen"));
+        }
         configs.push(("rustls-cert-gen [ring]".into(), vec!["ring".into()], "rustls-cert-gen"));
         if thorough {
             configs.push(("rustls-cert-gen [aws_lc_rs]".into(), vec!["aws_lc_rs".into()], "rustls-cert-gen"));
